@@ -36,6 +36,8 @@ type txSpec struct {
 type blockSpec struct {
 	ts  int64
 	txs []*txSpec
+	// glue: a pipelined replica hands this block and the next one to the executor together
+	glue bool
 }
 
 func (b *blockSpec) event(height uint64) *pb.CommitEvent {
